@@ -87,6 +87,8 @@ def run_case(case):
 
         def do(node):
             h = L.Header(dst, typ)
+            if case.get("stale_from") is not None:
+                h.from_node = case["stale_from"]  # a header object used before by another node / taken from a received frame
             t0 = net.sim.now
             r = node.write(L.Frame(h, msg))
             return r, t0, net.sim.now
@@ -251,6 +253,12 @@ def _enum(quick):
                             continue
                         yield {"src": src, "dst": dst, "type": typ, "msg": "c13a" * (hops % 4), "tx_timeout": 10, "route_timeout": 40,
                                "fault": f, "nodes": _topology(src, dst)}
+        # a header object that already carries another valid origin address; a message of exactly 24 bytes
+        for hops, (s, d) in ROUTES.items():
+            for typ in (65, 0):
+                yield {"src": s, "dst": d, "type": typ, "msg": "c13f", "tx_timeout": 10, "route_timeout": 40, "fault": None, "nodes": _topology(s, d),
+                       "stale_from": 0o3 if s != 0o3 else 0o4}
+                yield {"src": d, "dst": s, "type": typ, "msg": "5a" * 24, "tx_timeout": 10, "route_timeout": 40, "fault": None, "nodes": _topology(d, s)}
         # every node listens to another level's multicasts (multicast_level raised or lowered): routing and NETWORK_ACKs as before
         for hops, (s, d) in ROUTES.items():
             for rev in (False, True):
